@@ -20,7 +20,12 @@ Definition glob_one (cs : bool) (accept_prefix : bool) (pat : str) (path : list 
   | Some pcs =>
     (negb (ends_c slash pat) && gmatch cs pcs path)
     || (accept_prefix &&
-        existsb (fun i => gmatch cs (firstn i pcs) path) (seq 1 (length pcs - 1)))
+        (* _split_pattern_by_sep splits the RAW pattern: "a/b/" has the proper prefixes "a" and "a/b" *)
+        let raw := split_on slash pat in
+        existsb (fun i => match resolve (firstn i raw) with
+                          | Some pc => gmatch cs pc path
+                          | None => false
+                          end) (seq 1 (length raw - 1)))
   end.
 
 Definition glob_match (cs : bool) (accept_prefix : bool) (pats : list str) (full_path : str) : bool :=
